@@ -174,6 +174,43 @@ def run(tier):
                 if not ok:
                     ck.finding("R5.opcode-table", "R5.opcode-table/unpatched/Op::%s.%s" % (o, fldname), None,
                                "Op::%s.%s is a jump target that no function of the compiler ever patches: forward jumps keep their placeholder" % (o, fldname))
+    # ---------------- R5b pending jump placeholders do not die with their context
+    # A forward jump is emitted with target 0 and recorded in a Vec<JumpPlaceholder> of the context it belongs
+    # to.  The function that pops such a context off its stack must look at every placeholder vector of the
+    # context (patch it, or refuse the program): a vector it never reads is dropped with its jumps unpatched,
+    # and each of those jumps goes to instruction 0 at run time.
+    ck.rule("R5b.placeholders-drained", "a function that pops a context holding Vec<JumpPlaceholder> fields reads every one of them", floor=2)
+    holders = {}
+    for pth, a in fx.adts.items():
+        if not pth.startswith("compiler::") or a["kind"] != "struct":
+            continue
+        flds = [fd["name"] for fd in a["variants"][0]["fields"] if "JumpPlaceholder" in fx.tys(fd["ty"]) and fx.tys(fd["ty"]).startswith("std::vec::Vec<")]
+        if flds:
+            holders[pth] = flds
+    ck.anchor(bool(holders), "compiler context structs holding Vec<JumpPlaceholder> (%s)" % ", ".join("%s{%s}" % (k.split("::")[-1], ",".join(v)) for k, v in sorted(holders.items())))
+    for f in fx.fns.values():
+        if not f.file.startswith("src/compiler") or f.derived:
+            continue
+        for bi, t in f.calls():
+            if not t[1].get("d", "").endswith("Vec::<T, A>::pop") or not t[3]:
+                continue
+            rt = fx.tys(f.locals[t[3][0]])
+            for h, flds in holders.items():
+                if ("Option<%s>" % h) not in rt:
+                    continue
+                read = set()
+                for g in fx.body_group(f):
+                    for _, kind, place, _ in M.all_places(g):
+                        for (adt, var, name) in F.place_fields(place):
+                            if adt == h:
+                                read.add(name)
+                for fld in flds:
+                    ok = fld in read
+                    ck.instance("R5b.placeholders-drained", "%s pops %s: %s" % (f.parent, h.split("::")[-1], fld), F.short_span(t[6]), ok=ok)
+                    if not ok:
+                        ck.finding("R5b.placeholders-drained", "R5b.placeholders-drained/%s/%s" % (f.parent, fld), F.short_span(t[6]),
+                                   "`%s` pops a %s and never looks at its `%s`: jumps still recorded there keep the placeholder target 0 and restart "
+                                   "the program from its first instruction when they run" % (f.parent, h.split("::")[-1], fld))
     # ---------------- R6 sibling opcode arms (plain key / computed key / constant key) agree on operand roles
     import roles as R
     ck.rule("R6.sibling-arms", "opcode arms that differ only in where the key comes from (X / XComputed / XConst) perform the same accesses on operands of the same role", floor=7)
